@@ -249,3 +249,10 @@ def _jsonable(x):
 
 def sha(b):
     return hashlib.sha1(bytes(b)).hexdigest()[:16]
+
+
+def quiet_logging():
+    import logging
+    logging.disable(logging.CRITICAL)
+    import warnings
+    warnings.simplefilter('ignore')
